@@ -34,10 +34,12 @@ VARIABLES
     Configs,      \* sequence of pool configurations
     CloudOn       \* BOOLEAN: a cloud provider is configured
 cfgVars == <<Specs, NodeSub, Configs, CloudOn>>
-OpTypes == {"filter", "bind", "unbind", "resync", "apirelease", "poolupsert", "reload", "syncpod"}
+OpTypes == {"filter", "bind", "unbind", "resync", "apirelease", "poolupsert", "reload", "syncpod", "preempt"}
+\* preempt (the scheduler's preemption extender) runs the same getSubnet as filter, but WITHOUT the pod lock
+IsFilter(o) == o.type \in {"filter", "preempt"}
 \* ("bindLockFirst" -- Bind taking the pod lock before its lister lookup -- is a switch the code does not have)
 AllGuards == {"unbindUid", "bindStaleLister", "bindUidGuard", "bindPoolSize", "resyncReread", "apiDoubleCheck"}
-             \cup {"podlock:" \o t : t \in OpTypes} \cup {"dplock:" \o t : t \in OpTypes}
+             \cup {"podlock:" \o t : t \in OpTypes \ {"preempt"}} \cup {"dplock:" \o t : t \in OpTypes}
 
 VARIABLES
     mem, store, pools, clock,          \* IPAM object (IPAMCore)
@@ -123,7 +125,7 @@ Call(o) ==
       [] o.pc = "lockdp"       -> C("lockdp", [key |-> L.oldK])
       [] o.pc \in {"podlist", "podlist0"} -> C("podlist", [pod |-> L.podname])
       [] o.pc = "podget"       -> C("podget", [pod |-> L.podname])
-      [] o.pc \in {"bykey", "bykey2"} -> C("ByKeyAndIPRanges", [key |-> L.key, ranges |-> IF o.type \in {"filter", "bind"} THEN L.lpod.ranges ELSE <<>>])
+      [] o.pc \in {"bykey", "bykey2"} -> C("ByKeyAndIPRanges", [key |-> L.key, ranges |-> IF o.type \in {"filter", "preempt", "bind"} THEN L.lpod.ranges ELSE <<>>])
       [] o.pc = "bykey_r"      -> C("ByKeyAndIPRanges", [key |-> L.key, ranges |-> <<>>])
       [] o.pc = "bykey_c"      -> C("ByKeyAndIPRanges", [key |-> L.key, ranges |-> <<>>])
       [] o.pc = "byprefix"     -> C("ByPrefix", [prefix |-> L.oldK])
@@ -209,8 +211,8 @@ Cont(o, r) ==
     LET L == o.loc  p == L.lpod IN
     CASE
     (* ======== filter ======== *)
-      o.type = "filter" /\ o.pc = "lockpod" -> {Goto(o, "bykey")}
-   [] o.type = "filter" /\ o.pc = "bykey" ->
+      IsFilter(o) /\ o.pc = "lockpod" -> {Goto(o, "bykey")}
+   [] IsFilter(o) /\ o.pc = "bykey" ->
         LET ips == r.ips
             owned == {ips[i] : i \in {j \in 1..Len(ips) : ips[j] # "none"}}
             unalloc == IF Len(p.ranges) = 0 THEN <<>> ELSE SelectSeqIdx(p.ranges, ips)
@@ -224,11 +226,11 @@ Cont(o, r) ==
                       rep == IF sized THEN poolobj[p.pool].size ELSE DpReplicas(p.app) IN
                   {[o1 EXCEPT !.pc = "lockdp", !.loc.oldK = PoolPrefix(p), !.loc.sized = sized, !.loc.replicas = rep]}
              ELSE {Goto(o1, "nodesubnets")}
-   [] o.type = "filter" /\ o.pc = "lockdp" ->
+   [] IsFilter(o) /\ o.pc = "lockdp" ->
         IF L.policy # 0
           THEN IF Len(L.unalloc) > 0 THEN {Finish(o, FALSE)} ELSE {Goto(o, "byprefix")}
           ELSE {Goto(o, "nodesubnets")}
-   [] o.type = "filter" /\ o.pc = "byprefix" ->
+   [] IsFilter(o) /\ o.pc = "byprefix" ->
         LET ips == Range(r.ips)
             used == {ip \in ips : mem[ip].key # L.oldK /\
                                   (L.sized \/ p.pool = "" \/ HasPrefix(mem[ip].key, PoolAppPrefix(p)))}
@@ -236,10 +238,10 @@ Cont(o, r) ==
         IF Cardinality(used) >= L.replicas THEN {Finish(o, FALSE)}
         ELSE IF unusedSub # {} THEN {FilterAfterAvail(o, unusedSub, TRUE)}
         ELSE {Goto(o, "nodesubnets")}
-   [] o.type = "filter" /\ o.pc = "nodesubnets" -> {FilterAfterAvail(o, Range(r.subnets), FALSE)}
-   [] o.type = "filter" /\ o.pc = "allocwithkey" -> IF r.ok THEN {Goto(o, "first")} ELSE {Finish(o, FALSE)}
-   [] o.type = "filter" /\ o.pc = "first" -> {FinishNodes(o, {L.rs})}
-   [] o.type = "filter" /\ o.pc = "allocinsubnet" -> IF r.ok THEN {FinishNodes(o, {L.rs})} ELSE {Finish(o, FALSE)}
+   [] IsFilter(o) /\ o.pc = "nodesubnets" -> {FilterAfterAvail(o, Range(r.subnets), FALSE)}
+   [] IsFilter(o) /\ o.pc = "allocwithkey" -> IF r.ok THEN {Goto(o, "first")} ELSE {Finish(o, FALSE)}
+   [] IsFilter(o) /\ o.pc = "first" -> {FinishNodes(o, {L.rs})}
+   [] IsFilter(o) /\ o.pc = "allocinsubnet" -> IF r.ok THEN {FinishNodes(o, {L.rs})} ELSE {Finish(o, FALSE)}
     (* ======== bind ======== *)
    [] o.type = "bind" /\ o.pc = "lockpod" -> {Goto(o, IF "bindLockFirst" \in Guards THEN "podlist" ELSE "bykey")}
    [] o.type = "bind" /\ o.pc = "podlist" ->
@@ -469,7 +471,12 @@ WorkItem(p, retry) == [pod |-> p, retry |-> retry]
 Complete(w, id, o, o2) ==      \* bookkeeping when the operation ends (o2.pc = "done")
     LET ok == o2.loc.res.ok
         w1 == [w EXCEPT !.ops = [x \in (DOMAIN w.ops) \ {id} |-> w.ops[x]]] IN
-    CASE o.type = "filter" ->
+    CASE o.type = "preempt" ->      \* the answer (kept under "preempt:<pod>" for comparison with the code's): the candidate nodes in
+                                    \* the computed subnets, or all candidates when getSubnet failed; the node-subnet cache fills as for filter
+           IF ok THEN [w1 EXCEPT !.filtered = Put(w.filtered, "preempt:" \o o.loc.podname, [uid |-> o.uid, nodes |-> NodesOf(o2.loc.subnets)]),
+                                 !.nscache = [n \in (DOMAIN nscache) \cup {m \in Nodes : NodeSubnetNow(m) # "none"} |-> NodeSubnetOf(n)]]
+           ELSE [w1 EXCEPT !.filtered = Put(w.filtered, "preempt:" \o o.loc.podname, [uid |-> o.uid, nodes |-> Nodes])]
+      [] o.type = "filter" ->
            IF ok THEN [w1 EXCEPT !.filtered = Put(w.filtered, o.loc.podname, [uid |-> o.uid, nodes |-> NodesOf(o2.loc.subnets)]),
                                  !.nscache = [n \in (DOMAIN nscache) \cup {m \in Nodes : NodeSubnetNow(m) # "none"} |-> NodeSubnetOf(n)]]
            ELSE [w1 EXCEPT !.filtered = IF o.loc.podname \in DOMAIN w.filtered THEN Del(w.filtered, o.loc.podname) ELSE w.filtered]
@@ -496,6 +503,7 @@ AddOp(w, o) == [w EXCEPT !.ops = Put(w.ops, w.ctr.op, o), !.ctr.op = w.ctr.op + 
 WithPod(o, p) == [o EXCEPT !.loc.lpod = p, !.loc.key = KeyOf(p), !.loc.policy = PolicyOf(p), !.loc.podname = p.name]
 
 StartFilterW(name) == AddOp(Cur, WithPod(NewOp("filter", "lockpod", name, "", pods[name].uid), pods[name]))
+StartPreemptW(name) == AddOp(Cur, WithPod(NewOp("preempt", "bykey", name, "", pods[name].uid), pods[name]))
 StartBindW(name, node) ==
     AddOp(Cur, [NewOp("bind", IF "bindLockFirst" \in Guards THEN "lockpod" ELSE "podlist", name, node, pods[name].uid)
                 EXCEPT !.loc.podname = name])
